@@ -336,7 +336,8 @@ def oracle_c14(ck, ctx, run):
                     return bad("repeat=never but a size was swept again")
                 if rep == "last" and size > min_chunk:
                     return bad(f"repeat=last but size {size} (smallest is {min_chunk}) was swept again")
-            sweep_size, sweep_removed = (size if not remainder else sweep_size), False
+            sweep_removed = bool(cfg.get("first")) if prev_e is None else False
+            sweep_size = size if not remainder else sweep_size
         if outcome == "Y":
             sweep_removed = True
         if not remainder:
